@@ -3,6 +3,8 @@ package c04
 
 import (
 	"fmt"
+	"github.com/hashicorp/consul/types"
+	"sort"
 	"strings"
 
 	"github.com/hashicorp/consul/agent/structs"
@@ -63,7 +65,23 @@ func StateInvariants(w *world.World, violate func(sig, msg string), last string)
 			violate("C04:I3-session-without-node:last="+last, fmt.Sprintf("session %s lives on node %q which is not registered", id, s.Node))
 			continue
 		}
-		for _, cid := range s.CheckIDs() {
+		// every list a session can name checks in (the statement does not distinguish them)
+		bound := map[types.CheckID]bool{}
+		for _, cid := range s.Checks {
+			bound[cid] = true
+		}
+		for _, cid := range s.NodeChecks {
+			bound[types.CheckID(cid)] = true
+		}
+		for _, sc := range s.ServiceChecks {
+			bound[types.CheckID(sc.ID)] = true
+		}
+		var cids []types.CheckID
+		for cid := range bound {
+			cids = append(cids, cid)
+		}
+		sort.Slice(cids, func(i, j int) bool { return cids[i] < cids[j] })
+		for _, cid := range cids {
 			_, hc, _ := st.NodeCheck(s.Node, cid, nil, "")
 			if hc == nil {
 				violate("C04:I3-session-check-missing:last="+last, fmt.Sprintf("session %s is bound to check %q which does not exist", id, cid))
@@ -167,6 +185,8 @@ func Run(c *ev.Ctx) {
 	s4 := cmdlib.SessionSpec{Name: "s4", Node: "n1", Behavior: structs.SessionKeysDelete, NodeChecks: []string{"c1"}} // shares c1 with s1
 
 	// bound to a check of type "session", which may be critical while the session lives; deleting the check ends it
+	// an older client: the deprecated Checks list next to NodeChecks
+	s6 := cmdlib.SessionSpec{Name: "s6", Node: "n1", Behavior: structs.SessionKeysRelease, LegacyChecks: []string{"c1"}, NodeChecks: []string{"sc1"}}
 	s5 := cmdlib.SessionSpec{Name: "s5", Node: "n2", Behavior: structs.SessionKeysDelete, NodeChecks: []string{"sessck"}}
 
 	lockOps := map[string]cmdlib.KVSpec{}
@@ -193,6 +213,11 @@ func Run(c *ev.Ctx) {
 		sp := cmdlib.KVSpec{Verb: api.KVLock, Key: "a", Val: "x", Sess: "s5"}
 		lockOps[sp.Name()] = sp
 		alpha = append(alpha, sp.Op(), s5.Create(), cmdlib.SessionDestroy("s5"), cmdlib.Txn(cmdlib.TxnCheck(api.CheckDelete, "n2", sessCk, 0)))
+	}
+	{
+		sp := cmdlib.KVSpec{Verb: api.KVLock, Key: "a/b", Val: "x", Sess: "s6"}
+		lockOps[sp.Name()] = sp
+		alpha = append(alpha, sp.Op(), s6.Create(), cmdlib.SessionDestroy("s6"))
 	}
 	alpha = append(alpha, s1.Create(), s2.Create(), s3.Create(), s4.Create(), cmdlib.SessionDestroy("s1"), cmdlib.SessionDestroy("s2"), cmdlib.SessionDestroy("s3"), cmdlib.SessionDestroy("s4"))
 	alpha = append(alpha,
@@ -231,14 +256,15 @@ func Run(c *ev.Ctx) {
 		append(append([]world.Op{}, base...), s3.Create(), lock("a", "s3"), s1.Create(), lock("a/b", "s1")),
 		append(append([]world.Op{}, base...), s1.Create(), s4.Create(), lock("a", "s1"), lock("a/b", "s4")),
 		append(append([]world.Op{}, base...), s5.Create(), lock("a", "s5"), cmdlib.PQSet("q1", "q-one", "s5", "web")),
+		append(append([]world.Op{}, base...), s6.Create(), lock("a", "s6"), cmdlib.PQSet("q1", "q-one", "s6", "web")),
 	}
 	depth := 3
 	if !quick {
 		depth = 4
 	}
 	cfg := &e1.Config{Ctx: c, Seeds: seeds, Alphabet: alpha, MaxDepth: depth, AuditMerges: 60,
-		Pre:  func(w *world.World) any { return observe(w) },
-		Post: func(t *e1.Trans) { transition(t, lockOps) },
+		Pre:       func(w *world.World) any { return observe(w) },
+		Post:      func(t *e1.Trans) { transition(t, lockOps) },
 		MaxStates: 500000,
 	}
 	if quick {
